@@ -168,9 +168,9 @@ SameBits(a, b) == SeqBits(a, b, AtLeast(FxMax(MagSeq(a), MagSeq(b)), 30))
 -----------------------------------------------------------------------------
 (* Tolerance classes: the bits of agreement each clause must reach, by component type of the code under test.
    AgreeBits counts whole bits, so `n` bits means a deviation below 2^(1-n) of the scale.
-   Calibrated on the pinned tree (thorough tier, checks/c14.py prints the observed minimum per class into the
-   evidence file); each threshold leaves at least 3 bits (8x) below the smallest agreement observed and is never
-   tighter than the principled bound given here.
+   Calibrated on the pinned tree (quick and thorough tier, seed 1; checks/c14.py writes the observed minimum per class
+   into the evidence file, `calibration`); each threshold leaves at least 3 bits (8x) below the smallest agreement
+   observed - except the publication class OkM1 - and is never tighter than the principled bound given here.
 
    Exact:      the value is a published decimal converted to the component type: half an ulp (53 / 24 bits).
    Published7: palette's RGB and cone matrix pairs are PUBLISHED to seven decimals (Lindbloom; Cottrell's
@@ -183,35 +183,56 @@ SameBits(a, b) == SeqBits(a, b, AtLeast(FxMax(MagSeq(a), MagSeq(b)), 30))
                y = 0.0001: condition ~1e4).
    Amplified:  L*a*b* / L*u*v* chroma of a neutral: a* = 500 (f(X/Xn) - f(Y)), so a relative XYZ error d becomes
                500 d / 3 (b*: 200 d / 3, u*, v*: 13 L* 0.2 d): Published7 gives 1.7e-5, f32 about 1e-4 (cbrt).
-   OkM1:       palette's XYZ -> Oklab matrix is the CSS Color 4 recalculation for the D65 chromaticity
-               0.3127/0.3290, while palette's D65 is (0.95047, 1, 1.08883): white maps to L = 1.000001,
-               a = 1.2e-5, b = 3.7e-5 - inside the published precision of Ottosson's M1 (his own M1 gives
-               (0.99999, -2.6e-4, -3.2e-5) ... 4 digits).  Tolerance 1e-4 (14 bits) as the publication class.  *)
+   OkM1:       palette's XYZ -> Oklab matrix is the CSS Color 4 recalculation of Ottosson's M1 for the D65 chromaticity
+               0.3127/0.3290, while palette's D65 is (0.95047, 1, 1.08883): the white of a D65 standard that goes
+               through XYZ maps to L = 1.000001, a = 1.2e-5, b = 3.7e-5 (sRGB uses Ottosson's direct matrix: 1e-8).
+               Either published M1 maps (0.95047, 1, 1.08883) to the cone response of (1, 0, 0) only to 12..13 bits
+               (MC_Adapt, case okm1): the published precision of M1 is the tolerance, 1e-4 (14 bits) on L, a, b, a
+               publication class without the 8x rule.  *)
 Need(class, t) ==
   LET f64 == t = "f64" IN
-  CASE class \in {"white.table", "space.prim", "space.white", "cone.fwd"} -> IF f64 THEN 50 ELSE 21
-    [] class \in {"space.hard=ref", "cone.inv=ref"} -> 22                 \* f64 constants in the code for every t
+  CASE (* Exact: observed 54..55 / 25..26 *)
+       class \in {"white.table", "space.prim", "space.white", "cone.fwd"} -> IF f64 THEN 50 ELSE 21
+       (* Published7, entries of the f64 constants in the code (the same for every t): observed 25 *)
+    [] class \in {"space.hard=ref", "cone.inv=ref"} -> 22
+       (* Published7, forward * inverse of the hard-coded pairs: observed 23 (RGB), 24 (cone) *)
     [] class \in {"space.hard.inv", "cone.inv"} -> 20
-    [] class = "space.der=ref" -> IF f64 THEN 36 ELSE 8
+       (* Derived: observed 52 / 23; principled 2^-53 (2^-24) times the condition 10^4 of ProPhoto's primaries *)
+    [] class = "space.der=ref" -> IF f64 THEN 40 ELSE 12
+       (* Published7 through Xyz::matrix_from_rgb / Rgb::matrix_from_xyz: observed 25, 25, 23, 24 / 23, 22, 23, 22 *)
     [] class \in {"space.mfr=ref", "space.mfx=ref"} -> IF f64 THEN 22 ELSE 19
-    [] class = "space.mfr.mfx" -> IF f64 THEN 20 ELSE 17
-    [] class = "space.white.map" -> IF f64 THEN 20 ELSE 17
-    [] class \in {"conv.white.xyz", "conv.grey.xyz", "conv.grey.y"} -> IF f64 THEN 20 ELSE 17
-    [] class \in {"conv.white.L", "conv.white.luvL"} -> IF f64 THEN 20 ELSE 16
-    [] class \in {"conv.lab", "conv.luv", "conv.lch", "conv.lchuv"} -> IF f64 THEN 12 ELSE 9
+    [] class = "space.mfr.mfx" -> IF f64 THEN 20 ELSE 19
+    [] class = "space.white.map" -> IF f64 THEN 20 ELSE 18
+       (* Published7 through a conversion: observed 24, 23, 23, 23 / 22, 21, 22, 21 *)
+    [] class \in {"conv.white.xyz", "conv.grey.xyz", "conv.grey.y", "conv.luma"} -> IF f64 THEN 20 ELSE 17
+       (* L* = 100 relative to 128: observed 25 (3.9e-6 = 116/3 * 1e-7) / exact *)
+    [] class \in {"conv.white.L", "conv.white.luvL"} -> IF f64 THEN 21 ELSE 16
+       (* Amplified: observed 16 (a* = 1.75e-5, C*uv = 2.6e-5) / 15 (Lab), 13 (Luv: 1.3e-4) *)
+    [] class \in {"conv.lab", "conv.lch"} -> IF f64 THEN 13 ELSE 12
+    [] class \in {"conv.luv", "conv.lchuv"} -> IF f64 THEN 13 ELSE 10
+       (* OkM1, a publication class: 2^-13 = 1.2e-4; observed 15 (b = 3.7e-5), L: 20 (1.0e-6) *)
     [] class \in {"conv.oklab", "conv.oklch", "conv.white.okL"} -> 14
+       (* hexcone spaces of the same standard: a grey has saturation exactly 0; whiteness + blackness = 1 to an ulp *)
     [] class \in {"conv.hsv", "conv.hsl", "conv.hwb"} -> IF f64 THEN 44 ELSE 17
-    [] class = "conv.hsluv" -> IF f64 THEN 8 ELSE 4
-    [] class = "conv.luma" -> IF f64 THEN 20 ELSE 17
-    [] class = "conv.back" -> IF f64 THEN 19 ELSE 15
-    [] class = "conv.cam16.J" -> IF f64 THEN 20 ELSE 14
-    [] class \in {"adapt.mat", "adapt.old", "adapt.ident", "adapt.white", "adapt.fwd", "adapt.back"} -> IF f64 THEN 19 ELSE 16
-    [] class = "adapt.new=old" -> IF f64 THEN 44 ELSE 17
-    [] class = "adapt.forms" -> IF f64 THEN 44 ELSE 17
-    [] class = "adapt.forms.same" -> IF f64 THEN 19 ELSE 16
-    [] class \in {"mat3.then", "mat3.conv", "mat3.inv"} -> IF f64 THEN 40 ELSE 12
-    [] class = "mat3.ident" -> 200
-    [] class = "space.native" -> 0
+       (* HSLuv saturation (0..100, relative to 128) = 100 C*uv / Cmax(L*, h): the Amplified chroma divided by the chroma
+          bound, which shrinks towards white: observed 14 / 13 over the grey axis below white (0.01 / 0.02 of 100) *)
+    [] class = "conv.hsluv" -> IF f64 THEN 11 ELSE 10
+       (* equal components after the way back, relative: observed 21 (4.3e-7: Display P3 there and back) / 18 *)
+    [] class = "conv.back" -> IF f64 THEN 18 ELSE 15
+       (* J = 100 relative to 128: observed 25 / 22 *)
+    [] class = "conv.cam16.J" -> IF f64 THEN 21 ELSE 18
+       (* Published7 through the cone matrix pair: observed 24 / 21..23 *)
+    [] class \in {"adapt.mat", "adapt.old", "adapt.ident", "adapt.white"} -> IF f64 THEN 20 ELSE 18
+       (* ... applied to colours, relative to the colour: observed 23, 21 (twice through the pair), 23 / 20, 20, 22 *)
+    [] class \in {"adapt.fwd", "adapt.forms.same"} -> IF f64 THEN 19 ELSE 17
+    [] class = "adapt.back" -> IF f64 THEN 18 ELSE 17
+       (* the same adaptation computed by another entry point: observed bit-identical; Arith: a 3x3 product and a
+          matrix-vector product are 6 roundings *)
+    [] class \in {"adapt.new=old", "adapt.forms"} -> IF f64 THEN 44 ELSE 17
+       (* Arith: observed 51 / 22 on seeded well-conditioned matrices *)
+    [] class \in {"mat3.then", "mat3.conv", "mat3.inv"} -> IF f64 THEN 44 ELSE 17
+    [] class = "mat3.ident" -> 200                       \* exactly the unit / diagonal matrix
+    [] class = "space.native" -> 0                       \* a yes/no clause: 200 or -999
     [] OTHER -> 999
 (* every class, for the calibration report *)
 Classes == << "white.table", "cone.fwd", "cone.inv=ref", "cone.inv", "space.prim", "space.white", "space.hard=ref",
